@@ -18,59 +18,77 @@ theorem head0_toList {s : String} {c : Char} (h : head0 s = some c) : ∃ r, s.t
   | nil => rw [hl] at h; simp at h
   | cons x xs => rw [hl] at h; simp at h; exact ⟨xs, by rw [h]⟩
 
-theorem sanitizeMember_sanitised (v v' : EnumVal) (h : sanitizeMember v = .ok v') : sanitised v'.name = true := by
+/-- a member name is not the empty string -/
+def nonEmptyName (n : String) : Bool := !n.toList.isEmpty
+
+/-- decidable hypothesis of `post_SanitizeEnumMemberNames`: no enum member has an empty name
+    (since /repo fix aceba4d the pass returns such a member unchanged instead of panicking) -/
+def NonEmptyEnumNames := schemasAll (fun o => enumNamesTy nonEmptyName o.ty) (enumNamesTy nonEmptyName)
+
+theorem head0_cons {s : String} {c : Char} {r : List Char} (h : s.toList = c :: r) : head0 s = some c := by
+  simp [head0, h]
+
+theorem negStep (n : String) (hn : n.toList ≠ []) :
+    ∃ c r, (if head0 n == some '-' then ucc ("negative" ++ tail1 n) else n).toList = c :: r ∧ c ≠ '-' := by
+  by_cases h : (head0 n == some '-') = true
+  · rw [if_pos h]
+    obtain ⟨r, hr⟩ := ucc_negative_toList (tail1 n)
+    exact ⟨'N', r, hr, by decide⟩
+  · rw [if_neg h]
+    cases hl : n.toList with
+    | nil => exact absurd hl hn
+    | cons c r =>
+      refine ⟨c, r, rfl, ?_⟩
+      intro hc
+      subst hc
+      exact h (by simp [head0_cons hl])
+
+theorem posStep (n : String) (c : Char) (r : List Char) (hl : n.toList = c :: r) (hc : c ≠ '-') :
+    sanitised (if head0 n == some '+' then ucc ("positive" ++ tail1 n) else n) = true := by
+  by_cases h : (head0 n == some '+') = true
+  · rw [if_pos h]
+    obtain ⟨r', hr'⟩ := ucc_positive_toList (tail1 n)
+    exact sanitised_of_head hr' (by decide) (by decide)
+  · rw [if_neg h]
+    refine sanitised_of_head hl (by simpa using hc) ?_
+    have : c ≠ '+' := by
+      intro hp; subst hp
+      exact h (by simp [head0_cons hl])
+    simpa using this
+
+/-- the weaker rule that holds for EVERY input since fix aceba4d: the name does not start with a sign -/
+def signFree (n : String) : Bool :=
+  match n.toList with
+  | [] => true
+  | c :: _ => c != '-' && c != '+'
+
+theorem signFree_of_sanitised {n : String} (h : sanitised n = true) : signFree n = true := by
+  unfold sanitised at h; unfold signFree
+  cases hl : n.toList with
+  | nil => rfl
+  | cons c r => rw [hl] at h; exact h
+
+theorem sanStep_signFree (n0 : String) :
+    signFree (if head0 (if head0 n0 == some '-' then ucc ("negative" ++ tail1 n0) else n0) == some '+'
+      then ucc ("positive" ++ tail1 (if head0 n0 == some '-' then ucc ("negative" ++ tail1 n0) else n0))
+      else (if head0 n0 == some '-' then ucc ("negative" ++ tail1 n0) else n0)) = true := by
+  cases hl : n0.toList with
+  | nil =>
+    have h0 : head0 n0 = none := by simp [head0, hl]
+    simp [h0, signFree, hl]
+  | cons c r =>
+    obtain ⟨c1, r1, hl1, hc1⟩ := negStep n0 (by rw [hl]; simp)
+    exact signFree_of_sanitised (posStep _ c1 r1 hl1 hc1)
+
+theorem sanitizeMember_signFree (v v' : EnumVal) (h : sanitizeMember v = .ok v') : signFree v'.name = true := by
   simp only [sanitizeMember] at h
   split at h
   · cases h
-  · -- the name after the `None` rule
-    generalize hn0 : (if (v.kind == "string" && v.name == "") = true then
-        match v.value with
-        | Val.str s => Outcome.ok (if (s == "") = true then "None" else v.name)
-        | _ => Outcome.panic "SanitizeEnumMemberNames: member.Value.(string)"
-      else Outcome.ok v.name) = n0o at h
-    cases n0o with
-    | panic p => simp at h
-    | err e => simp at h
-    | ok n0 =>
-      simp only at h
-      cases hc0 : head0 n0 with
-      | none => rw [hc0] at h; simp at h
-      | some c0 =>
-        rw [hc0] at h
-        simp only at h
-        generalize hn1 : (if (c0 == '-') = true then ucc ("negative" ++ tail1 n0) else n0) = n1 at h
-        cases hc1 : head0 n1 with
-        | none => rw [hc1] at h; simp at h
-        | some c1 =>
-          rw [hc1] at h
-          simp at h
-          subst h
-          simp only
-          by_cases hp : c1 = '+'
-          · rw [if_pos hp]
-            obtain ⟨r, hr⟩ := ucc_positive_toList (tail1 n1)
-            exact sanitised_of_head hr (by decide) (by decide)
-          · rw [if_neg hp]
-            obtain ⟨r1, hr1⟩ := head0_toList hc1
-            refine sanitised_of_head hr1 ?_ (by simpa using hp)
-            -- c1 is not '-': either n1 = n0 with c0 ≠ '-', or n1 starts with 'N'
-            by_cases hm : (c0 == '-') = true
-            · rw [if_pos hm] at hn1
-              obtain ⟨r, hr⟩ := ucc_negative_toList (tail1 n0)
-              rw [hn1] at hr
-              rw [hr] at hr1
-              simp at hr1
-              rw [← hr1.1]; decide
-            · rw [if_neg hm] at hn1
-              subst hn1
-              obtain ⟨r0, hr0⟩ := head0_toList hc0
-              rw [hr0] at hr1
-              simp at hr1
-              rw [← hr1.1]
-              simpa using hm
+  · cases h
+    exact sanStep_signFree _
 
-theorem sanitizeMembers_sanitised : ∀ (vs vs' : List EnumVal), sanitizeMembers vs = .ok vs' →
-    allMembers sanitised vs' = true
+theorem sanitizeMembers_signFree : ∀ (vs vs' : List EnumVal), sanitizeMembers vs = .ok vs' →
+    allMembers signFree vs' = true
   | [], vs', h => by simp [sanitizeMembers] at h; subst h; simp [allMembers]
   | v :: vs, vs', h => by
     simp only [sanitizeMembers] at h
@@ -80,7 +98,42 @@ theorem sanitizeMembers_sanitised : ∀ (vs vs' : List EnumVal), sanitizeMembers
       cases hr : sanitizeMembers vs with
       | ok rest =>
         rw [hr] at h; simp at h; subst h
-        simp [allMembers, sanitizeMember_sanitised v v' hv, sanitizeMembers_sanitised vs rest hr]
+        simp [allMembers, sanitizeMember_signFree v v' hv, sanitizeMembers_signFree vs rest hr]
+      | err e => rw [hr] at h; cases h
+      | panic e => rw [hr] at h; cases h
+    | err e => rw [hv] at h; cases h
+    | panic e => rw [hv] at h; cases h
+
+theorem sanitizeMember_sanitised (v v' : EnumVal) (hne : nonEmptyName v.name = true)
+    (h : sanitizeMember v = .ok v') : sanitised v'.name = true := by
+  simp only [sanitizeMember] at h
+  split at h
+  · cases h
+  · cases h
+    have hv : v.name.toList ≠ [] := by simpa [nonEmptyName] using hne
+    -- the name after the `None` rule is not empty
+    have hn0ne : ∀ (b : Bool), (if b = true then "None" else v.name).toList ≠ [] := by
+      intro b
+      cases b
+      · simpa using hv
+      · simp
+    obtain ⟨c, r, hl, hc⟩ := negStep _ (hn0ne (v.kind == "string" && v.name == "" &&
+      (match v.value with | .str s => s == "" | _ => false)))
+    exact posStep _ c r hl hc
+
+theorem sanitizeMembers_sanitised : ∀ (vs vs' : List EnumVal), allMembers nonEmptyName vs = true →
+    sanitizeMembers vs = .ok vs' → allMembers sanitised vs' = true
+  | [], vs', _, h => by simp [sanitizeMembers] at h; subst h; simp [allMembers]
+  | v :: vs, vs', hne, h => by
+    simp only [allMembers, Bool.and_eq_true] at hne
+    simp only [sanitizeMembers] at h
+    cases hv : sanitizeMember v with
+    | ok v' =>
+      rw [hv] at h; simp only at h
+      cases hr : sanitizeMembers vs with
+      | ok rest =>
+        rw [hr] at h; simp at h; subst h
+        simp [allMembers, sanitizeMember_sanitised v v' hne.1 hv, sanitizeMembers_sanitised vs rest hne.2 hr]
       | err e => rw [hr] at h; cases h
       | panic e => rw [hr] at h; cases h
     | err e => rw [hv] at h; cases h
@@ -146,8 +199,9 @@ theorem sanitize_enum_inv (t : Ty) (vs' : List EnumVal) (m : Meta) (h : vTy t = 
   | inter bs m0 => simp only [vTy] at h; cases he : vList bs <;> rw [he] at h <;> simp at h
 
 /-- `post_SanitizeEnumMemberNames` -/
-theorem post_SanitizeEnumMemberNames (S S' : Schemas) (hn : EnumsNamed S = true)
+theorem post_SanitizeEnumMemberNames (S S' : Schemas) (hn : EnumsNamed S = true) (hne : NonEmptyEnumNames S = true)
     (h : SanitizeEnumMemberNames.run S = .ok S') : EnumNames_php S' = true := by
+  rw [NonEmptyEnumNames, schemasAll_iff] at hne
   have hS := (EnumsNamed_iff S).1 hn
   have hkeep := keeps_SanitizeEnumMemberNames qNoEnum qNoEnum_enumConst qNoEnum_disjConst S S' hS h
   rw [EnumNames_php, schemasAll_iff]
@@ -163,6 +217,37 @@ theorem post_SanitizeEnumMemberNames (S S' : Schemas) (hn : EnumsNamed S = true)
     refine enumNames_of_top sanitised _ hx0 ?_
     intro vs' m hty
     -- where does x come from?
+    obtain ⟨cur, s, hs, hf, _⟩ := visitSchemas_spec h s' hs'
+    obtain ⟨_, _, hobjs⟩ := visitSchemaPure_spec hf
+    obtain ⟨ko, hko, t, ht, hxe⟩ := hobjs x hx
+    rw [hxe] at hty
+    simp only at hty
+    subst hty
+    obtain ⟨vs, hvs, hv⟩ := sanitize_enum_inv ko.2.ty vs' m ht
+    have hin : enumNamesTy nonEmptyName ko.2.ty = true := (hne s hs).2 ko hko
+    rw [hvs] at hin
+    exact sanitizeMembers_sanitised vs vs' (by simpa [enumNamesTy] using hin) hv
+
+/-- `EnumNames` with the sign rule only -/
+def EnumNames_signFree := schemasAll (fun o => enumNamesTy signFree o.ty) (enumNamesTy signFree)
+
+/-- what SanitizeEnumMemberNames establishes for EVERY input whose enums are named objects -/
+theorem post_SanitizeEnumMemberNames_signFree (S S' : Schemas) (hn : EnumsNamed S = true)
+    (h : SanitizeEnumMemberNames.run S = .ok S') : EnumNames_signFree S' = true := by
+  have hS := (EnumsNamed_iff S).1 hn
+  have hkeep := keeps_SanitizeEnumMemberNames qNoEnum qNoEnum_enumConst qNoEnum_disjConst S S' hS h
+  rw [EnumNames_signFree, schemasAll_iff]
+  intro s' hs'
+  refine ⟨?_, ?_⟩
+  · have : sat qNoEnum s'.entryPointType = true := (hkeep s' hs').1
+    rw [sat_qNoEnum] at this
+    exact enumNames_of_noEnum signFree _ this
+  · intro x hx
+    have hx0 : enumsNamedTop x.2.ty = true := by
+      have : satTop qNoEnum x.2.ty = true := (hkeep s' hs').2 x hx
+      rwa [satTop_qNoEnum] at this
+    refine enumNames_of_top signFree _ hx0 ?_
+    intro vs' m hty
     obtain ⟨cur, s, _, hf, _⟩ := visitSchemas_spec h s' hs'
     obtain ⟨_, _, hobjs⟩ := visitSchemaPure_spec hf
     obtain ⟨ko, _, t, ht, hxe⟩ := hobjs x hx
@@ -170,6 +255,6 @@ theorem post_SanitizeEnumMemberNames (S S' : Schemas) (hn : EnumsNamed S = true)
     simp only at hty
     subst hty
     obtain ⟨vs, _, hv⟩ := sanitize_enum_inv ko.2.ty vs' m ht
-    exact sanitizeMembers_sanitised vs vs' hv
+    exact sanitizeMembers_signFree vs vs' hv
 
 end Cog.NF
